@@ -239,7 +239,9 @@ fn check(case: &Case, rep: &mut Report, group: &str) {
         }
         Ok(Err(d)) => {
             let _ = group;
-            let sig = if d.read_while_holding {
+            let sig = if group == "available" {
+                "C11/reply-stream-item-invalidated-although-the-whole-burst-was-available-before-the-first-item"
+            } else if d.read_while_holding {
                 "C11/reply-stream-item-invalidated-by-later-separate-read"
             } else {
                 "C11/reply-stream-item-changed-although-delivered-in-the-same-read"
@@ -261,13 +263,16 @@ pub fn run(cfg: &Cfg) -> Report {
             seed: r["seed"].as_u64().unwrap(),
             warmup: r["warmup"].as_u64().unwrap_or(0) as usize,
         };
-        let g = if case.chunk_of.iter().all(|c| *c == 0) { "same" } else { "separate" };
+        let g = if case.chunk_of.iter().all(|c| *c == 0) { if case.warmup == 0 { "available" } else { "same" } } else { "separate" };
         check(&case, &mut rep, g);
         return rep;
     }
     let sanitized = cfg.layer != "native";
+    if cfg.layer == "native" {
+        crate::alloc::HOSTILE.store(true, std::sync::atomic::Ordering::Relaxed);
+    }
     let n_cases = match (cfg.layer.as_str(), group.as_str()) {
-        ("miri", "same") => cfg.n(24, 200),
+        ("miri", "same") | ("miri", "available") => cfg.n(24, 200),
         ("miri", _) => cfg.n(4, 16),
         ("asan", _) => cfg.n(2_000, 20_000),
         _ => cfg.n(4_000, 400_000),
@@ -295,7 +300,7 @@ pub fn run(cfg: &Cfg) -> Report {
                 }
             })
             .collect();
-        let chunk_of: Vec<usize> = if group == "same" {
+        let chunk_of: Vec<usize> = if group == "same" || group == "available" {
             vec![0; n]
         } else {
             // at least one later reply arrives in a later read
@@ -311,8 +316,34 @@ pub fn run(cfg: &Cfg) -> Report {
         };
         let total: usize = replies.iter().map(|r| r.1 + 70).sum();
         // same-read group: make sure the buffer can take the whole burst in one read
-        let warmup = if group == "same" { total + 600 } else if rng.chance(1, 3) { rng.range(1, 3000) } else { 0 };
-        let case = Case { replies, chunk_of, pendings: rng.below(2), via_proxy_stream, seed: cfg.seed ^ i, warmup };
+        let warmup = if group == "same" { total + 600 } else if group == "available" { 0 } else if rng.chance(1, 3) { rng.range(1, 3000) } else { 0 };
+        let mut case = Case { replies, chunk_of, pendings: if group == "available" { 0 } else { rng.below(2) }, via_proxy_stream, seed: cfg.seed ^ i, warmup };
+        if group == "available" {
+            // The whole burst is in the transport before the first item is requested, but the receive buffer
+            // is fresh, so zlink takes it in buffer-sized pieces. zlink keeps reading until a piece ends on a
+            // frame boundary; make sure only the last piece does, so that on a correct tree everything is
+            // read (and the buffer grown) before the first item is handed out.
+            let mut ok = false;
+            for _ in 0..40 {
+                let mut end = 0usize;
+                let mut aligned = false;
+                for k in 0..case.replies.len() {
+                    end += reply_bytes(&case, k).len();
+                    if end % 256 == 0 && k + 1 < case.replies.len() {
+                        aligned = true;
+                    }
+                }
+                if !aligned && end > 300 {
+                    ok = true;
+                    break;
+                }
+                let k = rng.below(case.replies.len());
+                case.replies[k].1 += rng.range(1, 90);
+            }
+            if !ok {
+                continue;
+            }
+        }
         check(&case, &mut rep, &group);
         if i < 3 {
             rep.sample(6, || json!({"group": group, "replies(is_error,text_len,continues)": format!("{:?}", case.replies), "delivered_in_read": case.chunk_of, "via": if case.via_proxy_stream { "proxy #[zlink(more)] stream" } else { "chain" }}));
